@@ -4,7 +4,7 @@ From GoPdf.Base Require Import Bytes Res.
 From GoPdf.C01 Require Import Lex Obj Num Names Strings Format Scan Wf
   LexProofs NumProofs NamesProofs StringsProofs FormatProofs ScanProofs
   SortProofs CanonProofs FuelProofs LimitProofs ArrayLimitProofs LimitsFull MainProofs
-  BufSrc BufSrcProofs Readers ReadersProofs.
+  BufSrc BufSrcProofs Readers ReadersProofs AcceptProofs.
 Import ListNotations.
 Open Scope N_scope.
 
@@ -217,6 +217,42 @@ Example text_ordered_ex :
   match scan_objects std_limits [60;60; 47;70;50; 32;49; 47;70;49;48; 32;49; 62;62] with
   | Ok (vs, _) => forallb text_ordered vs | Err _ => true end = false.
 Proof. vm_compute. split; reflexivity. Qed.
+
+(* What the writer accepts.  types.go refuses what the scanner would not read back
+   (Wf.fmt_ok / format_checked: nesting, array and dictionary sizes, name and string lengths,
+   reference numbers, with the translated limits).  For values of the Go types (go_value: int64,
+   finite reals, bytes, uint32/uint16 references, maps) whose number tokens fit ReadNumber's
+   buffer (nums_fit: always so with the real maxNameBytes; a hypothesis under shrunk limits only)
+   Format succeeds exactly when the value, without the nil dictionary entries that Format does not
+   write (prune), is within the limits of the scanner at the same nesting depth; and every value
+   within the limits is accepted. *)
+Theorem format_accepts_iff_within_limits : forall L p os,
+  forallb go_value os = true -> forallb (nums_fit L) os = true ->
+  ((exists t, format_checked L p os = Ok t) <-> forallb (fun o => wf_obj L 0 (prune o)) os = true) /\
+  (forallb (wf_obj L 0) os = true -> format_checked L p os = Ok (format p os)).
+Proof. exact format_accepts_iff_lemma. Qed.
+Print Assumptions format_accepts_iff_within_limits.
+
+(* Hence no size hypothesis is left in the round trip: when Format accepts the array of the
+   values, the text of its elements (what follows "[") is read back by ReadArray as the values.
+   (scan_objects is ReadArray at depth 0 on the text followed by "]" - the hook.) *)
+Theorem format_ok_roundtrip : forall L p os t,
+  go_value (OArr os) = true -> nums_fit L (OArr os) = true ->
+  format_checked L p [OArr os] = Ok t ->
+  scan_objects L (format p os) = Ok (map norm os, []).
+Proof. exact format_ok_roundtrip_lemma. Qed.
+Print Assumptions format_ok_roundtrip.
+
+Example format_checked_edges :
+  (* small_limits: strings < 8, names < 6, arrays <= 4, dictionaries <= 3, depth 3 *)
+  format_checked small_limits false [OStr [1; 2; 3; 4; 5; 6; 7]] <> Err Other /\
+  format_checked small_limits false [OStr [1; 2; 3; 4; 5; 6; 7; 8]] = Err Other /\
+  format_checked small_limits false [OName [65; 66; 67; 68; 69; 70]] = Err Other /\
+  format_checked small_limits false [OArr [OInt 1; OInt 2; OInt 3; OInt 4; OInt 5]] = Err Other /\
+  format_checked small_limits false [OArr [OArr [OArr []]]] <> Err Other /\
+  format_checked small_limits false [OArr [OArr [OArr [OArr []]]]] = Err Other /\
+  format_checked small_limits false [ODict [([65; 66; 67; 68; 69; 70; 71], ONull)]] <> Err Other.
+Proof. vm_compute. repeat split; congruence. Qed.
 
 (* OutputOptions.  The formatter model takes the option mask of types.go (constants translated):
    under every mask the text is read back as the values, and setting any of OptDictTypes,
